@@ -103,7 +103,7 @@ def cap_runouts(state):
 class World:
     def __init__(self, ch, ctx, cfg, monitors=(), *, profile=None, dealer=None, run_key='k',
                  autos_mask=None, muck_num=1, runout_prefs=(None, 1, 2, 2, 3), partial_show=True,
-                 explicit_index_num=1):
+                 explicit_index_num=1, commentary_num=0, adopt=None):
         self.ch = ch
         self.ctx = ctx
         self.cfg = cfg
@@ -125,6 +125,11 @@ class World:
         self.n = cfg['n']
         self.tick_cap = 400 + 60 * self.n
         self.autos_mask = cfg['autos'] if autos_mask is None else autos_mask
+        self.commentary_num = commentary_num
+        if adopt is not None:
+            self.state = adopt
+            self.constructing = False
+            return
         boot.set_run_key(run_key)
         self.constructing = True
         self._hook_depth = 0
@@ -148,14 +153,16 @@ class World:
             m.on_op(self, state, op)
 
     # -- applying decisions ------------------------------------------------------------
-    def apply(self, name, *args):
+    def apply(self, name, *args, **kw):
         st = self.state
         before = len(st.operations)
-        self.decisions.append((name, args))
+        if self.commentary_num and not kw and self.ch.chance('commentary', self.commentary_num, 8):
+            kw = {'commentary': 'note %d' % len(self.decisions)}
+        self.decisions.append((name, args) if not kw else (name, args, kw))
         self.in_call = (name, args)
         with observe.session(self._on_op):
             try:
-                op = getattr(st, name)(*args)
+                op = getattr(st, name)(*args, **kw)
             except Violation:
                 raise
             except Exception as e:      # noqa: BLE001
@@ -171,11 +178,20 @@ class World:
     def pick_cards(self, kind, k, player_index=None):
         """Dealer's argument for a k-card deal: None / int count / explicit card string."""
         mode = self.dealer
+        st = self.state
+        if mode == 'hidden':
+            # unknown cards only where nothing has to read them: burns and face-down hole cards
+            if kind == 'burn':
+                self.ctx.fault('hidden_cards')
+                return '??'
+            if kind == 'hole' and not any(list(st.hole_dealing_statuses[player_index])[:k]):
+                self.ctx.fault('hidden_cards', k)
+                return '??' * k
+            return None if k == 1 else k
         if mode == 'engine':
             return None
         if mode == 'counted':
             return k
-        st = self.state
         pool = list(st.get_dealable_cards(k))
         pool.sort(key=repr)          # content order, independent of deck order
         out = []
@@ -206,7 +222,8 @@ class World:
             return 'bringin'
         if s.actor_index is not None:
             return 'bet'
-        if s.can_select_runout_count() or s.can_show_or_muck_hole_cards():
+        if s.can_select_runout_count() or s.can_show_or_muck_hole_cards() or (
+                self.dealer == 'hidden' and s.street is not None and s.showdown_index is not None):
             return 'showdown'
         if s.can_kill_hand():
             return 'kill'
@@ -297,7 +314,7 @@ class World:
                 self.apply('fold')
         elif ph == 'showdown':
             opts = []
-            if s.can_show_or_muck_hole_cards():
+            if s.can_show_or_muck_hole_cards() or (self.dealer == 'hidden' and s.showdown_index is not None):
                 opts.append('show')
             if s.can_select_runout_count():
                 opts.append('runout')
@@ -326,6 +343,22 @@ class World:
     def show(self, s):
         ch = self.ch
         i = s.showdown_index
+        if any(not c for c in s.hole_cards[i]):
+            # hidden cards: the player reveals real cards for the unknown slots (or gives up)
+            forced = s.mode == Mode.TOURNAMENT and (s.all_in_status or True)
+            if not forced and self.muck_num and ch.chance('show.hidden.muck', 1, 6):
+                self.apply('show_or_muck_hole_cards', False)
+                return
+            pool = sorted((c for c in s.deck_cards if c), key=repr)
+            out = []
+            for c in s.hole_cards[i]:
+                if c:
+                    out.append(c)
+                else:
+                    out.append(pool.pop(ch.pick('show.reveal', len(pool))))
+            self.ctx.count('revealed_unknown_cards')
+            self.apply('show_or_muck_hole_cards', cards_str(out))
+            return
         # 0: engine decides, 1: show all, 2: voluntary muck, 3: explicit own cards, 4: partial show
         w = [8, 3, 0, 2, 0]
         forced = s.mode == Mode.TOURNAMENT and s.all_in_status
